@@ -71,9 +71,33 @@ def run_case(case, ctx):
     try:
         trees.build(recipe, root, ctx.state["styles"])
         outdir.mkdir()
+        outer = False
+        if k % 5 == 2:
+            # text files with CRLF / CR line endings: the checksum is that of the bytes on disk, whatever they are
+            for f in recipe["files"]:
+                fp = root / f["path"]
+                if f["kind"] == "text" and not f.get("unreadable") and fp.is_file() and rng.random() < 0.6:
+                    data = fp.read_bytes()
+                    if b"\r" not in data and len(data) < 4000:
+                        fp.write_bytes(data.replace(b"\n", rng.choice([b"\r\n", b"\r\n", b"\r"])))
+            res.cell("eol:crlf-or-cr-files")
+        if k % 7 == 3 and not recipe.get("git") and not os.path.exists(top / ".git"):
+            # the project is a sub-directory of a larger Git work tree; ignore rules live above it, ignored files below it
+            trees.git_init(top)
+            (top / ".gitignore").write_text("*.log\nbuild/\n*.o\n")
+            (root / "debug.log").write_text("ignored\n")
+            (root / "build").mkdir(exist_ok=True)
+            (root / "build" / "out.o").write_bytes(b"\x7fELF ignored")
+            (root / "lib.o").write_bytes(b"\x7fELF ignored too")
+            trees.git(top, "add", "-A", check=False)
+            trees.git(top, "commit", "-q", "-m", "init", check=False)
+            res.cell("vcs:work-tree-above-the-project")
+            outer = True
         concluded = rng.random() < 0.6
         where = rng.choice(["stdout", "inside", "outside"])
         cwd, gargs = trees.place_lint(rng, root)
+        if outer and "--root" not in gargs:
+            gargs = ["--root", str(root)]   # without it the project would be the whole work tree
         args = ["--no-multiprocessing"] + gargs + ["spdx"]
         if concluded:
             args.append("--add-license-concluded")
